@@ -188,6 +188,21 @@ op("arith.pi", "", "F", "(FloatLike.pi : Float)", "std::f64::consts::PI")
 op("arith.e15", "", "F", "(e15 : Float)", "1e-15")
 op("arith.sum_empty", "", "F", "(FloatLike.fneg FloatLike.zero : Float)", "Vec::<f64>::new().iter().sum::<f64>()")
 
+# ------------------------------------------------------------------ model-only branch classifiers (distribution evidence)
+MODEL_ONLY = set()
+def pop(name, sig, lean):
+    op(name, sig, "N", lean, None)
+    MODEL_ONLY.add(name)
+pop("path.angle.new", "FF", "Paths.angleNew x0 x1")
+pop("path.angle.add", "AA", "Paths.angleAdd x0 x1")
+pop("path.angle.sub", "AA", "Paths.angleSub x0 x1")
+pop("path.angle.eq", "AA", "Paths.angleEq x0 x1")
+pop("path.geonum.add", "GG", "Paths.geonumAdd x0 x1")
+pop("path.geonum.project", "GG", "Paths.project x0 x1")
+pop("path.geonum.dot", "GG", "Paths.dot x0 x1")
+pop("path.geonum.wedge", "GG", "Paths.wedge x0 x1")
+pop("path.geonum.distance", "GG", "Paths.distance x0 x1")
+
 LEAN_TY = {"F": "pF", "N": "pN", "I": "pI", "A": "pA", "G": "pG", "L": "pL", "T": "pT"}
 LEAN_OUT = {"F": "outF", "N": "outN", "B": "outB", "A": "outA", "G": "outG", "L": "outL", "O": "outO",
             "OO": "outOO", "OG": "outOG", "OOG": "outOOG", "OL": "outOL"}
@@ -197,6 +212,7 @@ def gen_lean():
     out = []
     out.append("/- GENERATED by /verif/tools/ops_table.py — do not edit. Model side of the protocol. -/")
     out.append("import GeonumModel.Exec.Codec")
+    out.append("import GeonumModel.Exec.Paths")
     out.append("namespace GeonumModel.Exec")
     out.append("open GeonumModel FloatLike")
     out.append("")
@@ -234,12 +250,16 @@ def gen_rust():
     out.append("/// (name, argument signature, result kind)")
     out.append("pub const OPS: &[(&str, &str, &str)] = &[")
     for (name, sig, ret, lean, rust, tags) in OPS:
+        if rust is None:
+            continue
         out.append(f'    ("{name}", "{sig}", "{ret}"),')
     out.append("];")
     out.append("")
     out.append("pub fn run_op(name: &str, v: &[Val]) -> Option<String> {")
     out.append("    Some(match name {")
     for (name, sig, ret, lean, rust, tags) in OPS:
+        if rust is None:
+            continue
         binds = "".join(f"let x{i} = v.get({i})?.{RUST_TAKE[k]}()?; " for i, k in enumerate(sig))
         out.append(f'        "{name}" => {{ if v.len() != {len(sig)} {{ return None; }} {binds}out_{ret.lower()}({rust}) }}')
     out.append("        _ => return None,")
